@@ -1222,6 +1222,32 @@ theorem claimable_only_after_all_recv_tests (sha256 : Nat → Nat) (i : RecvIn) 
     rw [hr.2.1] at h
     simp at h
 
+/-- Blinded receive (final hop of a blinded path): the `payment_constraints` test of create_recv_pending_htlc_info's
+    BlindedReceive arm — the translated body of `check_blinded_payment_constraints` applied to the ARGUMENTS the call site
+    passes (read from the text) — lets the HTLC through iff the onion's sender-intended amount reaches `htlc_minimum_msat`
+    and the HTLC's OWN `cltv_expiry` (not the onion's height) does not exceed `max_cltv_expiry`.  For all inputs. -/
+theorem blinded_receive_constraints_exact (intended amt cltv onionCltv hmin maxCltv : Nat) :
+    MppGen.blindedReceiveRefuses intended amt cltv onionCltv hmin maxCltv = false ↔ hmin ≤ intended ∧ cltv ≤ maxCltv := by
+  simp [MppGen.blindedReceiveRefuses, MppGen.blindedConstraintsViolated]
+
+/-- A restart between the parts of an MPP: what `impl Readable for (ClaimableHTLC, u64)` reads back of a part that
+    `write_claimable_htlc` wrote (TLV numbers paired, read-side expressions translated) is the same part with
+    `timer_ticks = 0` — every amount, the skimmed fee, `total_value_received` and the expiry survive, for all parts. -/
+theorem reload_preserves_part (w : MppGen.PartG) : MppGen.reloadPart w = { w with timer_ticks := 0 } := by
+  cases w; rfl
+
+/-- hence the model's `restart` (used by the driver for the `restart` op) IS that reload on every held part, it changes
+    nothing the completion / claim_deadline / claim decisions read, and the sums that decide all-or-nothing are unchanged -/
+theorem restart_is_reload (s : Mpp) :
+    (restartState s).parts.map Part.g = s.parts.map (fun p => MppGen.reloadPart p.g) ∧
+    (restartState s).total = s.total ∧ (restartState s).tag = s.tag ∧ (restartState s).evenTlv = s.evenTlv ∧
+    (restartState s).claiming = s.claiming ∧
+    sumValue (restartState s).parts = sumValue s.parts ∧ sumIntended (restartState s).parts = sumIntended s.parts ∧
+    sumSkim (restartState s).parts = sumSkim s.parts ∧ (restartState s).parts.map (·.cltv) = s.parts.map (·.cltv) ∧
+    (restartState s).parts.map (·.id) = s.parts.map (·.id) := by
+  refine ⟨?_, rfl, rfl, rfl, rfl, ?_, ?_, ?_, ?_, ?_⟩ <;>
+    simp [restartState, sumValue, sumIntended, sumSkim, List.map_map, Function.comp_def, reload_preserves_part, Part.g]
+
 /-- Front end + accumulator, composed.  `process_receive_htlcs` hands a part to `handle_claimable_htlc` only after
     `inbound_payment::verify(hash, secret, total_msat of THIS part's onion, ..)` accepted.  If the part that completes a
     set was so verified (for ANY crypto, keys, hash, secret, metadata, time), then for the announced PaymentClaimable
@@ -1385,5 +1411,10 @@ example : (receive (fun p => p + 1) ⟨1, 1000, 1000, none, 1000, 500, 1, false,
       ([.failPart 1], some .invalidKeysendPreimage) ∧
     (receive (fun p => p + 1) ⟨1, 1000, 1000, none, 1000, 500, 1, false, 500, 400, false, some 4, false, 5, true, none⟩ Mpp.init).2 =
       ([.claimable 1000 0 461], none) := by decide
+
+-- blinded_receive_constraints_exact / reload: both outcomes; a reloaded part with ticks
+example : MppGen.blindedReceiveRefuses 1000 990 500 480 1000 500 = false ∧ MppGen.blindedReceiveRefuses 999 1200 500 480 1000 500 = true ∧
+    MppGen.blindedReceiveRefuses 1000 1000 501 480 1000 500 = true := by decide
+example : MppGen.reloadPart ⟨580, 600, 1, some 970, 500, some 20⟩ = ⟨580, 600, 0, some 970, 500, some 20⟩ := by decide
 
 end Ldk.C04
